@@ -717,8 +717,9 @@ Plan generate(const std::string &profile, uint64_t seed, const GenLimits &lim)
         o.input_seed = r.next();
         o.sched_seed = r.next();
         o.garbage_seed = r.next();
-        o.strategy = sim::ST_SERIAL_IDENTITY;
-        p.fault_free = true;
+        o.strategy = r.chance(1, 2) ? sim::ST_SERIAL_PERM : sim::ST_SERIAL_IDENTITY;
+        o.shortfall = r.chance(1, 3); // fewer members than requested
+        p.fault_free = false;
         p.ops.push_back(o);
     }
     else if (profile == "C17")
